@@ -23,6 +23,32 @@ def specs():
     return med
 
 
+BIL_REL = "pandora/filter/bilateral.py"
+UFUNS = {"self.gauss_spatial_kernel": ("gaussSpatialKernel", "Nat → Rat → Nat → Nat → Rat"),
+         "self.normalized_gaussian": ("normalizedGaussian", "Rat → Rat → Rat")}
+
+
+def bilateral_functions():
+    """bilateral_kernel (per window), filter_bilateral, BilateralFilter.filter_disparity; the two Gaussians are UNINTERPRETED
+    functions whose argument wiring is read: `gauss_spatial_kernel(win_width, sigma_space)`, `normalized_gaussian(x, sigma_color)`"""
+    wf = pyarr.read_window_function(pyarr.WinFn(
+        BIL_REL, "BilateralFilter", "bilateral_kernel", "bilateralKernel",
+        params=[("gauss_spatial_kernel", "table"), ("sigma_color", "rat"), ("offset", "nat")],
+        ufuns={"self.normalized_gaussian": "normalizedGaussian"}))
+    fb = pyarr.read_function(pyarr.Spec(
+        BIL_REL, "BilateralFilter", "filter_bilateral", "filterBilateral",
+        arrays={"data": "data"}, rats={"sigma_space": "sigma_space", "sigma_color": "sigma_color"}, ufuns=UFUNS,
+        winfns={"self.bilateral_kernel": wf}, t8=("bilateral", "win_width"),
+    ))
+    fd = pyarr.read_function(pyarr.Spec(
+        BIL_REL, "BilateralFilter", "filter_disparity", "filterDisparityBilateral",
+        arrays={'disp["disparity_map"].data': "disparity_map"}, ints={'disp["validity_mask"].data': "validity_mask"},
+        rats={"self._sigma_space": "sigma_space", "self._sigma_color": "sigma_color"}, ufuns=UFUNS,
+        calls={"self.filter_bilateral": fb}, in_place="disparity_map",
+    ))
+    return wf, {"filterBilateral": fb, "filterDisparityBilateral": fd}
+
+
 def functions():
     """the translated functions, callee first"""
     med = pyarr.read_function(specs())
@@ -84,9 +110,9 @@ def comment(fn):
     return fn.source.replace("-/", "- /").replace("/-", "/ -")
 
 
-def render(fns, consts) -> str:
+def render(fns, consts, wf=None, bil=None) -> str:
     lines = [
-        "-- GENERATED by translator/gen_kernels_filter.py (translator/pyarr.py) from pandora/filter/median.py. Do not edit.",
+        "-- GENERATED by translator/gen_kernels_filter.py (translator/pyarr.py) from pandora/filter/median.py, bilateral.py. Do not edit.",
         "import PandoraModel.Model.PyArr",
         "import PandoraModel.Generated.Blocks",
         "import PandoraModel.Generated.Constants",
@@ -101,10 +127,22 @@ def render(fns, consts) -> str:
         lines.append("-/")
         lines.append(pyarr.render_lean(fn))
         lines.append("")
+    if wf is not None:
+        lines.append(f"/- {wf.where}   (per-window function of the block kernel)")
+        lines.append(wf.source.replace("-/", "- /").replace("/-", "/ -"))
+        lines.append("-/")
+        lines.append(pyarr.render_winfn(wf))
+        lines.append("")
+        for name, fn in bil.items():
+            lines.append(f"/- {fn.spec.where}")
+            lines.append(comment(fn))
+            lines.append("-/")
+            lines.append(pyarr.render_lean(fn))
+            lines.append("")
     lines.append("-- what translator/pyarr.py's own evaluator computes on one small map, checked here by evaluation")
     lines += golden(fns, consts)
     lines.append("")
-    lines.append("def translated : List String := [" + ", ".join(f'"{n}"' for n in fns) + "]")
+    lines.append("def translated : List String := [" + ", ".join(f'"{n}"' for n in list(fns) + ([wf.lean_name] + list(bil) if wf else [])) + "]")
     lines.append("")
     lines.append("end Pandora.Generated.KernelsFilter")
     return "\n".join(lines) + "\n"
@@ -114,8 +152,10 @@ def generate():
     from . import gen_constants
 
     fns = functions()
+    wf, bil = bilateral_functions()
     consts = {k: v for k, v in gen_constants.extract().items() if isinstance(v, int)}
-    write_if_changed("KernelsFilter.lean", render(fns, consts))
-    srcs = [MEDIAN_REL]
-    return {"T15": {"source": srcs, "digest": digest(*srcs), "functions": sorted(fns),
-                    "statements": {n: [s[0] for s in f.stmts] for n, f in fns.items()}}}
+    write_if_changed("KernelsFilter.lean", render(fns, consts, wf, bil))
+    srcs = [MEDIAN_REL, BIL_REL]
+    allf = dict(fns, **bil)
+    return {"T15": {"source": srcs, "digest": digest(*srcs), "functions": sorted(allf) + [wf.lean_name],
+                    "statements": {n: [s[0] for s in f.stmts] for n, f in allf.items()}}}
